@@ -130,7 +130,7 @@ def verdict(prog, assume=()):
         v['why'] = 'unsupported:recursion'
         return v
     gcl = [c for c in lax.clashes if c['ground']]
-    hard = [c for c in gcl if c['cls'] == 'plain' or c['cls'] in inc]
+    hard = [c for c in gcl if c['cls'] in ('plain', 'rec_head_lit') or c['cls'] in inc]
     if hard:
         c = hard[0]
         for c2 in hard:               # prefer the plain class for the bucket name
@@ -384,16 +384,15 @@ def evaluate(prog, engine='sqlite', assume=(), run_values=False, compile_sql=Tru
             res['bucket'] = 'other_diagnostic_on_clash:' + type(p).__name__
             return res
         # constructor accepted: a type error may still come at SQL generation
-        if engine == 'sqlite':
-            for pred in concrete_preds(prog):
-                try:
-                    with drive.quiet():
-                        p.FormattedPredicateSql(pred)
-                except drive.infer.TypeErrorCaughtException:
-                    res['labels'].append('rejected_by:sql_generation')
-                    return res
-                except Exception:
-                    continue
+        for pred in concrete_preds(prog):
+            try:
+                with drive.quiet():
+                    p.FormattedPredicateSql(pred)
+            except drive.infer.TypeErrorCaughtException:
+                res['labels'].append('rejected_by:sql_generation')
+                return res
+            except Exception:
+                continue
         return fail('clash_accepted:%s:%s' % (v['cls'], v['pair']),
                     what + '\nthe compiler raised no type error')
     # ---- expect accept
